@@ -25,6 +25,7 @@ SeqToSet(q) == {q[i] : i \in DOMAIN q}
 NoDup(q) == \A i, j \in DOMAIN q : q[i] = q[j] => i = j
 
 \* per-network table: the trap spaces of the network and of its time reversal
+LightSem(nt) == [nt |-> nt, traps |-> {}, rtraps |-> {}, srcs |-> {}]
 PureSem(nt) == [nt |-> nt, traps |-> TLCEval(Traps(nt)), rtraps |-> TLCEval(Traps(RevNet(nt))),
                 srcs |-> TLCEval(Sources(nt))]
 
@@ -126,6 +127,32 @@ DriversOK(e) ==
                    \A i \in V(P.nt) : e.sp[i] # 2 => (Ld(p[1], p[2])[i] = e.sp[i] \/ (i = p[1] /\ p[2] = e.sp[i]))}
     IN {<<e.drv[k].v, e.drv[k].val>> : k \in DOMAIN e.drv} = exp /\ Len(e.drv) = Cardinality(exp)
 
+\* repository models, per update function over its support (locality): only the function of
+\* variable e.v of the local network is defined
+PnVarOK(e) ==
+    /\ \A k \in DOMAIN e.pn : e.pn[k].v = e.v /\ e.pn[k].pre[e.v] = (IF e.pn[k].up THEN 0 ELSE 1)
+    /\ \A s \in StOf(P.nt, e.sp) :
+          /\ PNMoves(e.pn, e.v, TRUE, s)  <=> (Bit(s, e.v) = 0 /\ F(P.nt, e.v, s) = 1)
+          /\ PNMoves(e.pn, e.v, FALSE, s) <=> (Bit(s, e.v) = 1 /\ F(P.nt, e.v, s) = 0)
+FnLocalOK(e) == \A s \in StOf(P.nt, e.sp) : e.gtt[1][s + 1] = F(P.nt, e.v, s)
+\* e.sp: the percolated values of the other local variables; e.val: what percolation says about e.v.
+\* derived value: the function must be constant with that value; left free: the function must not be constant;
+\* given value: kept whatever the function says
+PercLocalOK(e) ==
+    IF e.given THEN e.val # 2
+    ELSE IF e.val # 2 THEN ConstOn(P.nt, e.v, e.sp) = e.val
+    ELSE ConstOn(P.nt, e.v, e.sp) = 2
+
+\* C17: sanitize_network_names.  Names are sequences of character codes.
+SafeCodes == (48..57) \cup (65..90) \cup (97..122) \cup {95}
+SanitizeOK(e) ==
+    /\ Len(e.names_out) = P.nt.n
+    /\ \A i \in DOMAIN e.names_out : e.names_out[i] # <<>> /\ \A k \in DOMAIN e.names_out[i] : e.names_out[i][k] \in SafeCodes
+    /\ NoDup(e.names_out)
+    /\ \A i \in DOMAIN e.names_in :        \* names that were already safe are kept
+          (\A k \in DOMAIN e.names_in[i] : e.names_in[i][k] \in SafeCodes) => e.names_out[i] = e.names_in[i]
+    /\ \A i \in V(P.nt) : \A s \in States(P.nt) : e.gtt[i][s + 1] = F(P.nt, i, s)     \* dynamics unchanged
+
 Verdict(e) ==
     CASE e.k = "trappist"  -> IF TrappistOK(e) THEN {} ELSE {"TRAPPIST"}
       [] e.k = "reduced"   -> IF ReducedOK(e) THEN {} ELSE {"REDUCED"}
@@ -137,10 +164,14 @@ Verdict(e) ==
       [] e.k = "conflicts" -> IF ConflictsOK(e) THEN {} ELSE {"CONFLICTS"}
       [] e.k = "ldoi"      -> IF LdoiOK(e) THEN {} ELSE {"LDOI"}
       [] e.k = "drivers"   -> IF DriversOK(e) THEN {} ELSE {"DRIVERS"}
+      [] e.k = "sanitize"  -> IF SanitizeOK(e) THEN {} ELSE {"SANITIZE"}
+      [] e.k = "pnvar"     -> IF PnVarOK(e) THEN {} ELSE {"PN"}
+      [] e.k = "fnlocal"   -> IF FnLocalOK(e) THEN {} ELSE {"PERCNET"}
+      [] e.k = "perclocal" -> IF PercLocalOK(e) THEN {} ELSE {"PERC"}
       [] OTHER             -> {"UNKNOWN"}
 
 Init == /\ \E i \in DOMAIN Traces : tr = Traces[i]
-        /\ P = PureSem(tr.net)
+        /\ P = (IF tr.light THEN LightSem(tr.net) ELSE PureSem(tr.net))
         /\ l = 1
         /\ ev = [k |-> "init"]
         /\ bad = {}
@@ -163,6 +194,7 @@ Inv_STRICT    == Report("STRICT", "STRICT" \notin bad)
 Inv_CONFLICTS == Report("CONFLICTS", "CONFLICTS" \notin bad)
 Inv_LDOI      == Report("LDOI", "LDOI" \notin bad)
 Inv_DRIVERS   == Report("DRIVERS", "DRIVERS" \notin bad)
+Inv_SANITIZE  == Report("SANITIZE", "SANITIZE" \notin bad)
 Inv_RAISED    == Report("RAISED", "RAISED" \notin bad)
 Inv_UNKNOWN   == Report("UNKNOWN", "UNKNOWN" \notin bad)
 
